@@ -34,7 +34,7 @@ SPEC = dict(
                'every container, which decides the property within the bound. Nothing is sampled.',
     level_note='Trusted: the reference schema table (transcribed from the KSI format), the reference builders of the base objects, OpenSSL (test PKI), sanitizers. Statement-silent and therefore '
                'not judged: N / F flags on known elements, presence of header / MAC in PDUs and their position in v1 PDUs, unknown non-critical elements before a "first" or after a "last" '
-               'element, publication / authentication record without calendar chain, UTF-8 rules beyond lead / continuation structure, empty non-empty strings, DER blobs other than those of '
+               'element, UTF-8 rules beyond lead / continuation structure, empty non-empty strings, DER blobs other than those of '
                'the base objects. Header form (TLV8 / TLV16) is always the shortest one (framing is C09).',
     require_outcomes=['sig:valid:accepted', 'sig:invalid:refused', 'aggr1:valid:accepted', 'aggr1:invalid:refused', 'aggr2:valid:accepted', 'aggr2:invalid:refused',
                       'ext1:valid:accepted', 'ext1:invalid:refused', 'ext2:valid:accepted', 'ext2:invalid:refused', 'pubfile:valid:accepted', 'pubfile:invalid:refused',
